@@ -77,3 +77,20 @@ Definition term_eqb (a b : term) : bool :=
   list_eqb (list_eqb N.eqb) (t_from a) (t_from b) && list_eqb action_eqb (t_then a) (t_then b).
 
 Definition chain_eqb (c d : chain) : bool := list_eqb (list_eqb term_eqb) c d.
+
+(* ------------------------------------------------------------------ the session's two chains and the skip test *)
+
+(* fsmAddressFamily keeps the import and the export chain of the session;
+   replaceImportFilterChain / replaceExportFilterChain (protocols/bgp/server/fsm_address_family.go) do nothing
+   when the new chain Equals the current chain OF THE SAME DIRECTION, otherwise they store it and call
+   ReplaceFilterChain on the Adj-RIB-In / Adj-RIB-Out. *)
+Record family := mkFam { fam_imp : chain; fam_exp : chain }.
+
+Definition fam_replace_export (s : sess) (x : family * aro chain) (c : chain) (v : list (N * list path))
+  : family * aro chain :=
+  if chain_eqb c (fam_exp (fst x)) then x
+  else (mkFam (fam_imp (fst x)) c, replace_chain chain interp s (snd x) c v).
+
+Definition fam_replace_import (x : family * loc) (r : rin) (c : chain) : family * loc :=
+  if chain_eqb c (fam_imp (fst x)) then x
+  else (mkFam c (fam_exp (fst x)), replace_in (interp (fam_imp (fst x))) (interp c) r (snd x)).
